@@ -83,12 +83,12 @@ PacketTheorems(p, U, Fs, mb, fo, co) ==
 
 PKInit == HSInit
 PKNext == /\ xst.k = "start"
-          /\ \E U \in Durs, mb \in MbClasses, Fs \in FsSet, dc \in DecConfigs :
-                xst' = [k |-> "case", U |-> U, mb |-> mb, Fs |-> Fs, fo |-> dc[1], co |-> dc[2]]
+          /\ \E U \in Durs, mb \in MbClasses : xst' = [k |-> "case", U |-> U, mb |-> mb]
           /\ UNCHANGED <<xn, xS, xG, xd, xhist>>
 SpecPK == PKInit /\ [][PKNext]_vars
 EnvelopeTheorems ==
-  xst.k # "start" => \A p \in EnvAll(xst.U, xst.mb, TRUE) : PacketTheorems(p, xst.U, xst.Fs, xst.mb, xst.fo, xst.co)
+  xst.k # "start" => \A p \in EnvAll(xst.U, xst.mb, TRUE) : \A Fs \in FsSet, dc \in DecConfigs :
+                         PacketTheorems(p, xst.U, Fs, xst.mb, dc[1], dc[2])
 \* exactly the durations other than 100 ms have a one-byte packet ("one byte is refused only for 100 ms")
 OneByteOnly100 ==
   \A U \in Units : (\E toc \in 0..255 : PacketOK([hdr |-> <<toc>>, len |-> 1, fill |-> 0], U * 120, 48000)) <=> (U # 40)
